@@ -339,6 +339,59 @@ def parameter_writes(P, f):
     return bad
 
 
+MUTATORS = ('sort', 'fill', 'resize', 'put', 'itemset', 'partition', 'clear', 'append', 'extend', 'pop', 'update', 'setdefault', 'add', 'insert',
+            'remove', 'discard', 'popitem')
+
+
+def receiver_writes(f):
+    """statements / calls of a method that change the state reachable from its receiver (`self` / `cls`): attribute stores, item or
+    slice stores into an attribute (self._memo[key] = v), augmented assignments, in-place methods of an attribute"""
+    if not f.positional_params or f.positional_params[0] not in ('self', 'cls'):
+        return []
+    me = f.positional_params[0]
+    out = []
+    for n in all_nodes(f):
+        if isinstance(n, (ast.Assign, ast.AugAssign, ast.AnnAssign, ast.Delete)):
+            tg = n.targets if isinstance(n, (ast.Assign, ast.Delete)) else [n.target]
+            for t in tg:
+                for t_ in (t.elts if isinstance(t, (ast.Tuple, ast.List)) else [t]):
+                    base = t_
+                    while isinstance(base, (ast.Subscript, ast.Attribute)):
+                        base = base.value
+                    if isinstance(t_, (ast.Subscript, ast.Attribute)) and isinstance(base, ast.Name) and base.id == me:
+                        out.append(n)
+        if isinstance(n, ast.Call) and isinstance(n.func, ast.Attribute) and n.func.attr in MUTATORS:
+            base = n.func.value
+            depth = 0
+            while isinstance(base, (ast.Subscript, ast.Attribute)):
+                base = base.value
+                depth += 1
+            if depth >= 1 and isinstance(base, ast.Name) and base.id == me:
+                out.append(n)
+        if isinstance(n, ast.Call):
+            o_ = kw(n, 'out')
+            if o_ is not None:
+                base = o_
+                while isinstance(base, (ast.Subscript, ast.Attribute)):
+                    base = base.value
+                if isinstance(base, ast.Name) and base.id == me and base is not o_:
+                    out.append(n)
+    return out
+
+
+def is_class_level_mutable(f, attr):
+    """is `attr` bound in the class body of f's class to a mutable display (dict / list / set) or a dict()/list()/set() call?"""
+    c = getattr(f, 'cls', None)
+    if c is None:
+        return False
+    for st in c.node.body:
+        if isinstance(st, ast.Assign) and any(isinstance(t, ast.Name) and t.id == attr for t in st.targets):
+            v = st.value
+            if isinstance(v, (ast.Dict, ast.List, ast.Set)) or (isinstance(v, ast.Call) and u(v.func) in ('dict', 'list', 'set', 'collections.defaultdict', 'defaultdict')):
+                return True
+    return False
+
+
 def aliases_of(f, name):
     """the local names that are the same object as `name` through plain rebinding (`name = other`, the only definition)"""
     out = {name}
@@ -364,6 +417,21 @@ def alternatives(e):
 def literal_nf(N, atom, pol):
     """normal form of a guard literal (atom, polarity): `not a > b` and `a <= b` coincide"""
     return N.nf(atom if pol else ast.UnaryOp(op=ast.Not(), operand=atom))
+
+
+def is_none_test(t, name):
+    """is `t` the test `name is None` (also `name == None`)?"""
+    while isinstance(t, ast.UnaryOp) and isinstance(t.op, ast.Not) and isinstance(t.operand, ast.UnaryOp) and isinstance(t.operand.op, ast.Not):
+        t = t.operand.operand
+    neg = False
+    if isinstance(t, ast.UnaryOp) and isinstance(t.op, ast.Not):
+        t, neg = t.operand, True
+    if isinstance(t, ast.Compare) and len(t.ops) == 1 and isinstance(t.left, ast.Name) and t.left.id == name \
+            and isinstance(t.comparators[0], ast.Constant) and t.comparators[0].value is None:
+        pos = isinstance(t.ops[0], (ast.Is, ast.Eq))
+        if isinstance(t.ops[0], (ast.Is, ast.Eq, ast.IsNot, ast.NotEq)):
+            return pos != neg
+    return False
 
 
 def canon_calls(P, f, expr):
@@ -887,3 +955,97 @@ def path_values(f, want='return', limit=256):
             results.append((conds, env.get(want, ast.Name(id=want, ctx=ast.Load()))))
     run(list(f.node.body), {}, [], at_end)
     return results
+
+
+NARROW_DTYPES = ('numpy.float32', 'numpy.float16', 'numpy.half', 'numpy.single', 'numpy.int8', 'numpy.int16', 'numpy.uint8', 'numpy.uint16',
+                 'numpy.int32', 'numpy.uint32', 'numpy.intc')
+NARROW_CODES = ('float32', 'float16', 'f4', 'f2', 'half', 'single', 'f', 'e', 'int8', 'int16', 'int32', 'i1', 'i2', 'i4', 'uint8', 'uint16', 'uint32',
+                '<f4', '<f2', '=f4')
+
+
+def narrow_dtype_uses(P, f):
+    """nodes of f that name a reduced-precision numpy type (float32 / float16 / small integers) as a conversion target: a dtype=
+    keyword, the argument of astype / asarray / array / zeros..., or the type called as a function"""
+    out = []
+    for a in all_nodes(f):
+        q = None
+        if isinstance(a, ast.Attribute):
+            q = P.canon(f, a)
+        elif isinstance(a, ast.Name):
+            q = P.canon(f, a)
+        if q in NARROW_DTYPES:
+            p_ = getattr(a, '_parent', None)
+            # inside a structured dtype description of a file format (a list of (name, type) pairs) the type describes the file, not a conversion
+            inside_struct = False
+            x = a
+            while x is not None and not isinstance(x, ast.stmt):
+                if isinstance(x, ast.Tuple) and len(x.elts) == 2 and isinstance(x.elts[0], ast.Constant) and isinstance(x.elts[0].value, str):
+                    inside_struct = True
+                x = getattr(x, '_parent', None)
+            if not inside_struct:
+                out.append((a, q))
+        if isinstance(a, ast.Constant) and isinstance(a.value, str) and a.value in NARROW_CODES:
+            p_ = getattr(a, '_parent', None)
+            if (isinstance(p_, ast.keyword) and p_.arg == 'dtype') or \
+                    (isinstance(p_, ast.Call) and isinstance(p_.func, ast.Attribute) and p_.func.attr in ('astype', 'view') and a in p_.args):
+                out.append((a, a.value))
+    return out
+
+
+def rule_double_precision(ck, rule_id, quals=(), modules=(), what='rates, counts and statistics'):
+    """no function on the path of the property converts numbers to a narrower numeric type: a value that went through float32 is
+    another number (relative error 6e-8 instead of 1e-16), so the result is no longer the documented function of the input"""
+    P = ck.prog
+    fs = [P.func(q) for q in quals]
+    for m in modules:
+        fs.extend(P.funcs_in(m))
+    n = 0
+    seen = set()
+    for f in fs:
+        if f.qualname in seen:
+            continue
+        seen.add(f.qualname)
+        for a, q in narrow_dtype_uses(P, f):
+            n += 1
+            ck.ob(rule_id, f, stmt_of(a) or a, a).fail(
+                '%s converts to %s: %s are rounded to a narrower type (float32 keeps 7 digits), so everything computed from them differs from the '
+                'value defined on the numbers that were supplied' % (f.short, q, what))
+    o = ck.ob(rule_id, fs[0] if fs else 'package', 'no conversion to a narrower numeric type (%d functions read)' % len(seen), None)
+    (o.ok() if n == 0 else o.fail('%d conversion(s) to a reduced-precision type' % n))
+
+
+PREDICATE_CALLS = ('isinstance', 'hasattr', 'callable', 'issubclass', 'isnan', 'isna', 'isnull', 'notna', 'notnull', 'isfinite', 'isinf', 'any', 'all',
+                   'isscalar', 'startswith', 'endswith', 'exists', 'isfile', 'isdir', 'is_integer')
+
+
+def truthiness_tests(e):
+    """the places inside an expression where a *value* is used as a condition (`x if v else y`, `v or y`, `v and y`): the operand is
+    neither a comparison nor a predicate call.  A value that may legitimately be 0 / 0.0 / '' (an id, a seed, a magnitude) is then
+    treated as missing.  Returns [(node, the operand used as a condition)]."""
+    out = []
+
+    def is_value(t):
+        while isinstance(t, ast.UnaryOp) and isinstance(t.op, ast.Not):
+            t = t.operand
+        if isinstance(t, ast.Compare):
+            return False
+        if isinstance(t, ast.BoolOp):
+            return any(is_value(v) for v in t.values)
+        if isinstance(t, ast.Call):
+            nm = t.func.attr if isinstance(t.func, ast.Attribute) else (t.func.id if isinstance(t.func, ast.Name) else '')
+            if nm in PREDICATE_CALLS or is_marker(t):
+                return False
+        if isinstance(t, ast.Constant):
+            return False
+        return True
+    for n in ast.walk(e):
+        if isinstance(n, ast.IfExp) and is_value(n.test):
+            out.append((n, n.test))
+        elif isinstance(n, ast.BoolOp):
+            p_ = getattr(n, '_parent', None)
+            used_as_test = isinstance(p_, (ast.If, ast.While, ast.IfExp)) and getattr(p_, 'test', None) is n
+            if not used_as_test:
+                for v in n.values[:-1]:
+                    if is_value(v):
+                        out.append((n, v))
+    return out
